@@ -330,6 +330,60 @@ def run(seed, tier, prims):
     return info
 
 
+def miri_pass(seed, tier):
+    """a small all-initialised lab run under Miri (`cargo +nightly miri run`): undefined behaviour that gives the right values on
+    this machine (provenance, typed reads of uninitialised padding, misaligned references the hardware tolerates). Fields that
+    may stay uninitialised are always written before anything reads them: the typed read of an uninitialised plain-old-data field
+    that `Drop` / `unpack` / conversions perform by design is outside the listed properties. Unavailable Miri = no verdict."""
+    key = f"{repo_hash()}-{machinery_hash()}"
+    base = os.path.join(WORK, "cache", key, f"M-{seed}-{tier}")
+    marker = os.path.join(base, "done.json")
+    if os.path.exists(marker) and not os.environ.get("VERIF_NO_CACHE"):
+        return json.load(open(marker))
+    os.makedirs(base, exist_ok=True)
+    res = {"available": False, "ub": [], "modules": 0, "wall": 0.0}
+    rc, out, err = sh(["cargo", "+nightly", "miri", "--version"], timeout=120)
+    if rc != 0:
+        res["note"] = "cargo +nightly miri is not available: " + (err or out)[-200:]
+        json.dump(res, open(marker, "w")); return res
+    ndefs = 6 if tier == "quick" else 24
+    old = ENV.get("VERIF_X_ALLINIT")
+    ENV["VERIF_X_ALLINIT"] = "1"
+    try:
+        lab, e = make_lab(seed + 7000, ndefs, "miri")   # fixed path: the Miri target directory remembers the manifest directory
+    finally:
+        if old is None:
+            ENV.pop("VERIF_X_ALLINIT", None)
+        else:
+            ENV["VERIF_X_ALLINIT"] = old
+    if lab is None:
+        res["note"] = "lab generation failed: " + e[-300:]
+        json.dump(res, open(marker, "w")); return res
+    t0 = time.time()
+    env = dict(ENV, CARGO_TARGET_DIR=os.path.join(WORK, "miri-target"), MIRIFLAGS="-Zmiri-disable-isolation")
+    outd = os.path.join(base, "out"); os.makedirs(outd, exist_ok=True)
+    rc, out, err = sh(["cargo", "+nightly", "miri", "run", "--offline", "--", outd], cwd=lab, timeout=1200 if tier == "quick" else 3600, env=env)
+    res["wall"] = time.time() - t0
+    res["modules"] = ndefs
+    if "Undefined Behavior" in err:
+        res["available"] = True
+        m = re.search(r"error: Undefined Behavior: ([^\n]*)", err)
+        where = re.findall(r"\d+: ([^\n]*)\n\s+at ([^\n]*)", err)[:4]
+        req = open(os.path.join(lab, "req.txt")).read().splitlines() if os.path.exists(os.path.join(lab, "req.txt")) else []
+        evs = open(os.path.join(outd, "events.txt")).read().splitlines() if os.path.exists(os.path.join(outd, "events.txt")) else []
+        nops = len([l for l in evs if l != "--"])
+        xs = [i for i, r in enumerate(req) if r.startswith("x ")]
+        line = xs[min(nops, len(xs) - 1)] if xs else 0
+        res["ub"].append({"message": (m.group(1) if m else "undefined behaviour") + " | " + "; ".join(f"{a} at {b}" for a, b in where),
+                          "requests": module_of(req, line) if req else []})
+    elif rc == 0:
+        res["available"] = True
+    else:
+        res["note"] = "the Miri run failed for another reason (not counted): " + err[-300:]
+    json.dump(res, open(marker, "w"))
+    return res
+
+
 def analyse(info, prims):
     res = {"ops": 0, "modules": 0, "disagreements": [], "oracle": [], "n_disagree": 0, "by_op": {}, "samples": [], "distinct": 0, "nontrivial": 0,
            "accesses": 0}
